@@ -386,3 +386,15 @@ Proof.
   - apply scan_act_c04; [apply lag_no_increase | apply lag_okterm].
   - simpl. apply c04_no_increase. apply lag_no_increase.
 Qed.
+
+(* ---------- C18, controller half: a failed increase takes no cool-down lock ---------- *)
+Lemma scale_up_error_no_lock e o mx dry st a tainted want :
+  let r := scale_up e o mx dry st a tainted want in
+  up_out r <> OutOk -> g_lock (up_state r) = g_lock st /\ up_ret r = 0.
+Proof.
+  unfold scale_up. destruct (match tainted with [] => _ | _ => _ end) as [[ucalls ucount] tr].
+  destruct (0 <? want - ucount); [|simpl; congruence]. destruct a as [g|]; [|simpl; auto].
+  destruct (nodes_to_add _ _ _ <=? 0); [simpl; auto|]. destruct dry; [simpl; congruence|].
+  destruct (aws_increase g _ (e_aorc e)) as [[ac r] g']. destruct r; simpl; [congruence | auto | auto].
+Qed.
+
